@@ -28,26 +28,26 @@ NOTE_F = (
 
 # id -> (category, design_ref, level text, technique, note)
 CHECKS = {
-    "C01": ("other", "DESIGN.md#c01", "Part of the property: for N<=3 atoms and <=3 steps with symbolic drives, interaction matrices, SLM end and time grid, the operator emu-sv hands to krylov_exp at step k is exactly -i*dt*1e-3*H_Pulser(step k), one exponential per interval, states chained. Krylov accuracy and agreement with Pulser's reference emulator are outside.", TECH_S, NOTE_S),
+    "C01": ("other", "DESIGN.md#c01", "Part of the property: for N<=3 atoms and <=2 steps (quick) / N<=5, <=5 steps (thorough) with symbolic drives, interaction matrices, SLM end and time grid, the operator emu-sv hands to krylov_exp at step k is exactly -i*dt*1e-3*H_Pulser(step k), one exponential per interval, states chained. Krylov accuracy and agreement with Pulser's reference emulator are outside.", TECH_S, NOTE_S),
     "C02": ("other", "DESIGN.md#c02", "Part: (1) the closures emu-mps exponentiates/minimises are time_step*V^dag H V for symbolic non-canonical MPS (N<=4, chi<=2, d=2/3); (2) one time step of progress() is the second-order two-site TDVP schedule (N<=6); (3) the MPO used during step k contracts to P H(step k) P^dag for every internal permutation. Numeric accuracy outside.", TECH_S, NOTE_S),
     "C03": ("other", "DESIGN.md#c03", "Part: for every permutation of N<=4 atoms the MPO is P H P^dag, results are un-permuted exactly (occupations, correlations, bitstrings, atom order), relabelling inputs conjugates emu-sv's Hamiltonian and permutes its observables, and the initial state is re-keyed consistently. Truncation-level agreement is outside.", TECH_S, NOTE_S),
     "C04": ("other", "DESIGN.md#c04", "Full decision tables, every branch explored: emu-sv over interaction type x eigenstates, PulserData's interaction-type branch, emu-mps create_impl over solver x noise x type x levels, make_H/update_H validation; accepted inputs are emulated with Pulser's Hamiltonian for symbolic parameters.", TECH_S, NOTE_S),
-    "C05": ("other", "DESIGN.md#c05", "Bounded symbolic equivalence: for every sparsity pattern the control flow distinguishes and all real values of U, Omega, Delta, phi and a complex noise term, contract(make_H;update_H) equals the dense Hamiltonian, N<=4 (quick) / N<=5 d=2, N<=4 d=3 (thorough). Solver verdict over all values inside the bound, nothing outside it.", TECH_S, NOTE_S),
-    "C06": ("other", "DESIGN.md#c06", "Bounded symbolic equivalence of RydbergHamiltonian.__mul__ and RydbergLindbladian.__matmul__ with the dense Hamiltonian / GKSL generator for all real drive values, symbolic jump operators and arbitrary complex inputs; both phase paths and both matmul paths; N<=3 (quick) / N<=4 (thorough).", TECH_S, NOTE_S),
+    "C05": ("other", "DESIGN.md#c05", "Bounded symbolic equivalence: for every sparsity pattern the control flow distinguishes and all real values of U, Omega, Delta, phi and a complex noise term, contract(make_H;update_H) equals the dense Hamiltonian, N<=4 (quick) / N<=6 d=2 (N=6 without the noise term), N<=4 d=3 (thorough). Solver verdict over all values inside the bound, nothing outside it.", TECH_S, NOTE_S),
+    "C06": ("other", "DESIGN.md#c06", "Bounded symbolic equivalence of RydbergHamiltonian.__mul__ and RydbergLindbladian.__matmul__ with the dense Hamiltonian / GKSL generator for all real drive values, symbolic jump operators and arbitrary complex inputs; both phase paths and both matmul paths; N<=3 (quick) / N<=5 Hamiltonian, N<=3 Lindbladian (thorough).", TECH_S, NOTE_S),
     "C07": ("other", "DESIGN.md#107-c07-c08-partial", "Part (the honesty half only): with the operator and torch.linalg.matrix_exp as stubs and symbolic tolerances, `converged`/`happy_breakdown` are reported exactly when an iteration met the residual-norm or error-estimate criterion, the public entry point raises exactly when not converged and returns no vector otherwise, and the returned vector is |v| sum_k exp(T)[k,0] q_k (dim<=3, <=3 iterations, Lanczos and Arnoldi). The accuracy bound (result = exp(A)v within 10*tol) is an analytic floating-point claim and is NOT decided.", TECH_M, NOTE_M),
     "C08": ("other", "DESIGN.md#107-c07-c08-partial", "Part (bookkeeping only): with the operator and torch.linalg.eigh as stubs and symbolic tolerances: unit norm of the returned vector, returned energy and vector are the Ritz pair of one and the same projected problem, converged-without-breakdown implies reported residual < tolerance, restart/iteration accounting, the public entry point raises exactly when neither converged nor broke down. Variational bound, Rayleigh-quotient and residual identities are exact-Lanczos/LAPACK facts and are NOT decided.", TECH_M, NOTE_M),
-    "C09": ("other", "DESIGN.md#107-c07-c08-partial", "Part (control logic only): DMRG sweeps visit every bond in order with the right centre moves and bath bookkeeping, a time step completes exactly after the first full sweep whose final energy moved by less than the tolerance, RuntimeError exactly when max_sweeps sweeps did not converge, every sweep re-centres on site 0 (N<=5, <=3 sweeps, local minimiser as a stub with solver-chosen energies; the local problem itself is decided under C02). Energy quality, normalisation and canonical form are NOT decided.", TECH_M, NOTE_M),
+    "C09": ("other", "DESIGN.md#107-c07-c08-partial", "Part (control logic only): DMRG sweeps visit every bond in order with the right centre moves and bath bookkeeping, a time step completes exactly after the first full sweep whose final energy moved by less than the tolerance, RuntimeError exactly when max_sweeps sweeps did not converge, every sweep re-centres on site 0 (N<=4, <=3 sweeps quick; N<=7, <=5 sweeps thorough; local minimiser as a stub with solver-chosen energies; the local problem itself is decided under C02). Energy quality, normalisation and canonical form are NOT decided.", TECH_M, NOTE_M),
     "C10": ("other", "DESIGN.md#c10", "Part: cutoff index, rank cap, discarded-weight budget (not lazier than allowed), kept = largest eigenvalues, preserve_norm factor, bond visiting order and caps, centre bookkeeping, for symbolic ascending spectra (k<=6) with eigh/qr as contract stubs; scaling leaves every non-centre factor unchanged. Orthonormality itself needs LAPACK and is outside.", TECH_S, NOTE_S),
     "C11": ("other", "DESIGN.md#c11", "Part: every QR/eigh-free MPS/MPO operation (add, scale, inner, overlap, norm of the centre, make, MPO.expect/add/rmul, from_operator_repr, from_state_amplitudes' key mapping, baths, traces) equals its dense counterpart for symbolic factors (N<=3, chi<=2, d=2/3) and leaves operands unchanged; expect_batch/correlation/apply on product states through a sound one-column QR stub, expect_batch across a chi=2 bond on either side of the centre through the known-factorisation QR stub.", TECH_S, NOTE_S),
     "C12": ("other", "DESIGN.md#c12", "Full within bounds: StateVector/DensityMatrix/DenseOperator/SparseOperator constructors and algebra equal their Kronecker / linear-algebra definitions for symbolic complex entries, forked basis strings and operator representations, N<=3 (amplitude placement to N=8); dense = sparse.", TECH_S, NOTE_S),
     "C13": ("other", "DESIGN.md#c13", "Part: all eight emu-sv observable implementations equal <n_i>, <n_i n_j>, <H^2>, variance on symbolic states/Hermitian matrices (N<=3/2) with [0,1] ranges; emu-mps fill_results hands callbacks psi/norm padded with |g> and H x 1 for every dark mask; MPS energy; MPS energy variance/second moment over a two-evaluation sequence with an in-place update_H between (zip_right as the exact uncompressed product); expect_batch/occupation across a chi=2 bond (known-factorisation QR stub). Other QR/SVD-based MPS observables are outside.", TECH_S, NOTE_S),
     "C14": ("other", "DESIGN.md#c14", "Full within bounds: over a symbolic time grid (<=3 steps) and all subsets of requested times for two observables (own/default), both backends and Pulser's real Observable.__call__ store each observable exactly once per requested time, nowhere else, in order, from the right state; every requested time (own, config default, or both kinds mixed) is a grid time the matching finds (real _get_target_times/_unique_observable_times, F-abs).", TECH_M, NOTE_M),
     "C15": ("other", "DESIGN.md#c15", "Part: shot counts, bit order/meaning, weights handed to the sampler (|psi_k|^2, diag rho, MPS conditionals = Born marginals for right-canonical MPS and for an MPS centred on its last site with chi=2), per-bit readout-flip logic with the RNG and the sampler outcomes as solver-chosen inputs. That the RNG follows the weights is a statistical claim and outside.", TECH_M, NOTE_M),
-    "C16": ("other", "DESIGN.md#c16", "Part: the map emu-sv exponentiates at step k equals dt*1e-3*GKSL(H_k, jump operators on every atom) on Hermitian matrices, one exponential per interval, states chained (N<=2, <=3 jump operators); generator lemmas (trace, Hermiticity) under C06. Arnoldi accuracy and positivity under truncation are outside.", TECH_S, NOTE_S),
+    "C16": ("other", "DESIGN.md#c16", "Part: the map emu-sv exponentiates at step k equals dt*1e-3*GKSL(H_k, jump operators on every atom) on Hermitian matrices, one exponential per interval, states chained (N<=2 quick, N<=3 thorough; <=3 jump operators); generator lemmas (trace, Hermiticity) under C06. Arnoldi accuracy and positivity under truncation are outside.", TECH_S, NOTE_S),
     "C17": ("other", "DESIGN.md#107-c07-c08-partial", "Part (deterministic ingredients of one trajectory only; the statistical convergence claim itself is NOT decided): the noisy solver's MPO contracts to H - i/2 sum_q sum_k (L_k^dag L_k)_q and the observable Hamiltonian carries no noise term; do_random_quantum_jump hands the sampler one candidate per (atom, operator) with weights <psi|(L^dag L)_q|psi>, applies the chosen operator and normalises (product states, N<=3, d=2/3, <=2 operators), rebuilds baths, redraws the threshold.", TECH_M, NOTE_M),
     "C18": ("other", "DESIGN.md#c18", "Inductive step from an arbitrary state satisfying the stepping invariant + bounded unrolling from init(): steps complete once, in order; observables recorded once when due; jumps only at a converged bracket inside the step with a sign change. Termination is relative to finitely many jumps and to C19's bisection lemma.", TECH_M, NOTE_M),
     "C19": ("other", "DESIGN.md#c19", "One-step inductive invariants of the real BrentsRootFinder (queries inside the bracket, bracket shrinks, sign change kept, convergence post-condition) for symbolic states and adversarial ordinates, ranking lemma T1 for the solver's regime, bounded unrollings incl. exact-zero ordinates under Python division semantics. Termination outside T1 only to depth 2-3.", TECH_M, NOTE_M),
-    "C20": ("other", "DESIGN.md#c20", "For n<=5 (quick) / n<=6 (thorough) knots with symbolic values (and symbolic spacings for n<=4): knot interpolation, C1, Fritsch-Carlson monotonicity region of the code's slopes, equality with a reference PCHIP and query routing, each decided by z3 for all real inputs.", TECH_S, NOTE_S),
+    "C20": ("other", "DESIGN.md#c20", "For n<=5 (quick) / n<=7 (thorough) knots with symbolic values (and symbolic spacings for n<=5): knot interpolation, C1, Fritsch-Carlson monotonicity region of the code's slopes, equality with a reference PCHIP and query routing, each decided by z3 for all real inputs.", TECH_S, NOTE_S),
     "C21": ("other", "DESIGN.md#c21", "Full within bounds for doubles: start 0, end exactly the duration, all times in range, separation > 5e-10*duration, every dt-multiple and evaluation time on the grid and matched exactly once, for duration<=1e4, dt>=0.1, <=2 evaluation times (from the observable, the config default, or both mixed), universal grid indices. Repetition count is C34.", TECH_F, NOTE_F),
     "C22": ("other", "DESIGN.md#c22", "Full within bounds: every omega/delta/phi entry equals a reference PCHIP at the step midpoint (incl. extrapolation beyond the last sample) and no amplitude row is negative, for symbolic samples (<=5 per atom), symbolic time grids (<=4 intervals, also all inside the last ns), 1-2 atoms; rejected inputs raise.", TECH_S, NOTE_S),
     "C23": ("other", "DESIGN.md#c23", "Full within bounds: cutoff, SLM masking, source selection, clone discipline, symmetry/zero diagonal and time routing of get_sequences/_InteractionMatrixCallable for symbolic matrices (N<=4) and all mask sets; which matrix each backend uses per step; diagonal never reaches a Hamiltonian.", TECH_S, NOTE_S),
